@@ -591,6 +591,7 @@ class SubtreeResult:
         self.bounces = 0
         self.errors = []
         self.stats = collections.Counter()
+        self.beyond = 0  # choice sequences one deviation beyond the bound (0 = the whole tree was enumerated)
 
 
 def history_hashes(x: Execution):
@@ -694,31 +695,87 @@ def trace_stats(x):
     return st
 
 
+def explore_level(args):
+    """Execute every prefix of one deviation level; returns the aggregated result and the prefixes of the next level."""
+    scn, monitor, prefixes, want_children, deadline = args
+    res = SubtreeResult()
+    children = []
+    for pre in prefixes:
+        if time.time() > deadline:
+            res.complete = False
+            break
+        try:
+            x = execute(scn, pre, keep_graph=getattr(scn, "keep_graph", False))
+        except ReplayDivergence as e:
+            res.errors.append(f"replay divergence at prefix {pre}: {e}")
+            continue
+        res.executions += 1
+        res.transitions += len(x.choices)
+        res.max_points = max(res.max_points, len(x.points))
+        for h in history_hashes(x):
+            res.histories.add(h)
+        res.outcomes[outcome_signature(x)] += 1
+        res.stats.update(trace_stats(x))
+        for v in monitor(scn, x):
+            v.setdefault("replay", {})
+            v["replay"].update({"scenario": scn.describe(), "choices": trim(x.choices), "points": [list(p) for p in x.points[:len(trim(x.choices))]],
+                                "trace": compact_trace(x.trace)[:400], "exception": x.exc})
+            res.violations.append(v)
+        if not pre:
+            res.samples.append({"scenario": scn.name, "choices": trim(x.choices), "n_choice_points": len(x.points),
+                                "events": compact_trace(x.trace)[:40], "exception": x.exc})
+        # one more deviation, at a choice point after the last one of this prefix: every choice sequence is generated exactly once
+        for i in range(len(pre), len(x.points)):
+            for alt in range(1, x.points[i][1]):
+                if want_children:
+                    children.append(x.choices[:i] + [alt])
+                else:
+                    res.beyond += 1
+    return res, children
+
+
 def explore(scn: Scenario, monitor, k: int, deadline: float, seed: int = 0, procs=None):
-    """Parallel deviation-bounded exploration; returns an aggregated SubtreeResult."""
+    """Iterative deviation bounding: all executions with 0 deviations from the default choices, then 1, then 2, ... up to k.
+
+    `completed_k` is the largest bound whose level was explored completely before the wall-clock deadline (k if the whole tree of
+    choice sequences was exhausted earlier: `tree_exhausted`)."""
     build_base(scn)  # parse before forking
-    root = explore_subtree((scn, monitor, [], 0, deadline, seed))
-    total = root
-    if k <= 0 or not root.complete:
-        return total
-    # expand first-level children from the root execution, then hand out the subtrees
-    x = execute(scn, [])
-    jobs = []
-    for i in range(len(x.points)):
-        for alt in range(1, x.points[i][1]):
-            jobs.append((scn, monitor, x.choices[:i] + [alt], k, deadline, seed))
-    if seed:
-        random.Random(seed).shuffle(jobs)
-    for r in common.pimap_unordered(explore_subtree, jobs, procs=procs):
-        total.executions += r.executions
-        total.transitions += r.transitions
-        total.histories |= r.histories
-        total.outcomes.update(r.outcomes)
-        total.violations.extend(r.violations)
-        total.complete = total.complete and r.complete
-        total.max_points = max(total.max_points, r.max_points)
-        total.errors.extend(r.errors)
-        total.stats.update(r.stats)
+    total = SubtreeResult()
+    total.completed_k = -1
+    total.tree_exhausted = False
+    total.level_sizes = []
+    level = [[]]
+    for depth in range(0, k + 1):
+        if not level:
+            total.tree_exhausted = True
+            total.completed_k = k
+            break
+        if seed:
+            random.Random(seed * 1000 + depth).shuffle(level)
+        total.level_sizes.append(len(level))
+        nproc = procs or common.ncpu()
+        size = max(1, min(40, len(level) // (nproc * 4) or 1))
+        jobs = [(scn, monitor, level[i:i + size], depth < k, deadline) for i in range(0, len(level), size)]
+        nxt = []
+        for r, children in common.pimap_unordered(explore_level, jobs, procs=procs):
+            total.executions += r.executions
+            total.transitions += r.transitions
+            total.histories |= r.histories
+            total.outcomes.update(r.outcomes)
+            total.violations.extend(r.violations)
+            total.complete = total.complete and r.complete
+            total.max_points = max(total.max_points, r.max_points)
+            total.errors.extend(r.errors)
+            total.stats.update(r.stats)
+            total.samples.extend(r.samples)
+            total.beyond += r.beyond
+            nxt.extend(children)
+        if not total.complete:
+            break
+        total.completed_k = depth
+        level = nxt
+        if depth == k and total.beyond == 0:
+            total.tree_exhausted = True
     return total
 
 
